@@ -72,6 +72,9 @@ def _join_meet_duality(
 
     n = args[0].dim + 1
 
+    # tensor diagrams identify nodes by object identity, so an object passed more than once needs its own node
+    args = tuple(o.copy() if any(o is x for x in args[:i]) else o for i, o in enumerate(args))
+
     # all arguments are 1-tensors, i.e. points or hypersurfaces (=lines in 2D)
     if all(o.tensor_shape == args[0].tensor_shape for o in args[1:]) and sum(args[0].tensor_shape) == 1:
         covariant = args[0].tensor_shape[0] > 0
